@@ -116,7 +116,9 @@ class WebSocketDataQueue:
         self._release_waiter()
 
     def feed_data(self, data: "WSMessage") -> None:
-        size = data.size
+        # An empty message occupies the queue too: count it as one byte, or a
+        # flood of empty frames is never a reason to pause reading
+        size = data.size or 1
         self._size += size
         self._put_buffer(data)
         self._release_waiter()
@@ -141,7 +143,7 @@ class WebSocketDataQueue:
     def _read_from_buffer(self) -> WSMessage:
         if self._buffer:
             data = self._get_buffer()
-            size = data.size
+            size = data.size or 1
             self._size -= size
             if self._size < self._limit and self._protocol._reading_paused:
                 self._protocol.resume_reading()
